@@ -193,6 +193,23 @@ def gap_guard(ctx):
     if not found:
         ctx.undecided(o, "no comparison of start_position with a constant controls the gap test")
         return
+    # the other side of the guard: end_position < len - 1 (a node exists behind the block)
+    from .. import shape as _sh
+    direct_parents = set(fd.cfg.cdep().get(cr[0].bb, ()))      # the tests of this very condition, not the earlier refusals
+    for sw, cal, d2 in controlling_sources(fd, cr[0]):
+        if sw.bb not in direct_parents:
+            continue
+        if d2 is not None and d2.kind == "assign" and d2.rv_kind() == "binop" and d2.rv["op"] in ("Lt", "Le", "Gt", "Ge"):
+            e = _sh.normalise(_sh.expr_of_instr(fd, d2))
+            for side_e, other_e in ((e[2], e[3]), (e[3], e[2])):
+                if any(c_.endswith("::len") for c_ in _sh.calls_of(side_e)) and other_e == ("param", 3):
+                    txt = _sh.show(side_e)
+                    ok_form = side_e[0] == "bin" and side_e[1] == "Sub" and side_e[2][0] == "call" and side_e[3][0] == "const" and (
+                        (str(side_e[3][1]).startswith("1") and e[1] == "Lt") or (str(side_e[3][1]).startswith("2") and e[1] == "Le"))
+                    if not ok_form and side_e[0] == "bin" and side_e[1] == "Sub":
+                        ctx.bad(o, "the gap test is only performed when end_position %s %s: a block that ends at the second-to-last node is removed "
+                                "without testing that its neighbours can be connected" % ("<" if e[1] == "Lt" else "<=", txt), loc=d2.line())
+                        return
     d, op, c = found[0]
     good = (op == "Gt" and c == 0) or (op == "Ge" and c == 1) or (op == "Ne" and c == 0)
     ctx.decide(o, good, "start_position %s %d" % ({"Gt": ">", "Ge": ">=", "Ne": "!="}.get(op, op), c),
